@@ -71,27 +71,32 @@ theorem renameNm_nodup {old n : N} {l : List (MSym N)} (hnd : (mnames l).Nodup) 
             exact ⟨fun hc => hs hc.symm, h'⟩
           · right; exact h'
 
-/-- provenance of an entry of the merged table: same object, same kind, and either the same name
-or (only for `free` symbols) a name that does not hide a host-scope name -/
-def Prov (outer : List N) (x s' : MSym N) : Prop :=
-  x.id = s'.id ∧ x.kind = s'.kind ∧ (s'.name = x.name ∨ (x.kind = .free ∧ s'.name ∉ outer))
+/-- provenance of an entry of the merged table: same object, same kind, same CodeBlock names, and
+either the same name or — only for `free` symbols whose name does not occur (case-insensitively) in a
+CodeBlock of their own scope — a new name that does not hide a host-scope name -/
+def Prov (norm : N → N) (outer : List N) (x s' : MSym N) : Prop :=
+  x.id = s'.id ∧ x.kind = s'.kind ∧ x.cb = s'.cb ∧
+    (s'.name = x.name ∨ (x.kind = .free ∧ ¬ mentioned norm x.cb x.name ∧ s'.name ∉ outer))
 
-theorem Prov.refl (outer : List N) (x : MSym N) : Prov outer x x := ⟨rfl, rfl, Or.inl rfl⟩
+theorem Prov.refl (norm : N → N) (outer : List N) (x : MSym N) : Prov norm outer x x :=
+  ⟨rfl, rfl, rfl, Or.inl rfl⟩
 
-theorem Prov.trans {outer : List N} {a b c : MSym N} (h1 : Prov outer a b) (h2 : Prov outer b c) :
-    Prov outer a c := by
-  obtain ⟨i1, k1, n1⟩ := h1
-  obtain ⟨i2, k2, n2⟩ := h2
-  refine ⟨i1.trans i2, k1.trans k2, ?_⟩
-  rcases n2 with h | ⟨hk, h⟩
-  · rcases n1 with h' | ⟨hk', h'⟩
+theorem Prov.trans {norm : N → N} {outer : List N} {a b c : MSym N} (h1 : Prov norm outer a b)
+    (h2 : Prov norm outer b c) : Prov norm outer a c := by
+  obtain ⟨i1, k1, c1, n1⟩ := h1
+  obtain ⟨i2, k2, c2, n2⟩ := h2
+  refine ⟨i1.trans i2, k1.trans k2, c1.trans c2, ?_⟩
+  rcases n2 with h | ⟨hk, hm, h⟩
+  · rcases n1 with h' | ⟨hk', hm', h'⟩
     · left; rw [h, h']
-    · right; exact ⟨hk', by rw [h]; exact h'⟩
-  · right; exact ⟨by rw [k1]; exact hk, h⟩
+    · right; exact ⟨hk', hm', by rw [h]; exact h'⟩
+  · rcases n1 with h' | ⟨hk', hm', _⟩
+    · right; exact ⟨by rw [k1]; exact hk, by rw [c1, ← h']; exact hm, h⟩
+    · right; exact ⟨hk', hm', h⟩
 
-theorem renameNm_prov {outer : List N} {old n : N} (hn : n ∉ outer) {l : List (MSym N)}
-    (hfree : ∀ s ∈ l, s.name = old → s.kind = .free) :
-    ∀ s' ∈ renameNm old n l, ∃ x ∈ l, Prov outer x s' := by
+theorem renameNm_prov {norm : N → N} {outer : List N} {old n : N} (hn : n ∉ outer) {l : List (MSym N)}
+    (hfree : ∀ s ∈ l, s.name = old → s.kind = .free ∧ ¬ mentioned norm s.cb s.name) :
+    ∀ s' ∈ renameNm old n l, ∃ x ∈ l, Prov norm outer x s' := by
   induction l with
   | nil => intro s' h; simp [renameNm] at h
   | cons s r ih =>
@@ -99,19 +104,46 @@ theorem renameNm_prov {outer : List N} {old n : N} (hn : n ∉ outer) {l : List 
     by_cases hs : s.name = old
     · simp only [renameNm, if_pos hs, List.mem_cons] at h
       rcases h with rfl | h
-      · exact ⟨s, by simp, rfl, rfl, Or.inr ⟨hfree s (by simp) hs, hn⟩⟩
-      · exact ⟨s', by simp [h], Prov.refl _ _⟩
+      · exact ⟨s, by simp, rfl, rfl, rfl, Or.inr ⟨(hfree s (by simp) hs).1, (hfree s (by simp) hs).2, hn⟩⟩
+      · exact ⟨s', by simp [h], Prov.refl _ _ _⟩
     · simp only [renameNm, if_neg hs, List.mem_cons] at h
       rcases h with rfl | h
-      · exact ⟨s', by simp, Prov.refl _ _⟩
+      · exact ⟨s', by simp, Prov.refl _ _ _⟩
       · obtain ⟨x, hx, hp⟩ := ih (fun t ht => hfree t (List.mem_cons_of_mem _ ht)) s' h
         exact ⟨x, List.mem_cons_of_mem _ hx, hp⟩
 
-variable (fresh : List N → N → N) (hfresh : ∀ ex root, fresh ex root ∉ ex)
+omit [DecidableEq N] in
+theorem meq_of_name_eq {l : List (MSym N)} (hnd : (mnames l).Nodup) {a b : MSym N} (ha : a ∈ l) (hb : b ∈ l)
+    (h : a.name = b.name) : a = b := by
+  induction l with
+  | nil => simp at ha
+  | cons x r ih =>
+    simp only [mnames, List.map_cons, List.nodup_cons] at hnd
+    have hx : ∀ y ∈ r, y.name ≠ x.name := fun y hy hc => hnd.1 (List.mem_map.mpr ⟨y, hy, hc⟩)
+    rcases List.mem_cons.mp ha with ha | ha <;> rcases List.mem_cons.mp hb with hb | hb
+    · rw [ha, hb]
+    · have : b.name = x.name := by rw [← ha]; exact h.symm
+      exact absurd this (hx b hb)
+    · have : a.name = x.name := by rw [← hb]; exact h
+      exact absurd this (hx a ha)
+    · exact ih hnd.2 ha hb
+
+/-- the CodeBlocks of an inner scope are among the CodeBlocks below the node of the receiving table -/
+def CbSub (cbSelf : List N) (l : List (MSym N)) : Prop := ∀ s ∈ l, ∀ c ∈ s.cb, c ∈ cbSelf
+
+theorem not_mentioned_of_sub {norm : N → N} {cbSelf cb : List N} {n : N} (hsub : ∀ c ∈ cb, c ∈ cbSelf)
+    (h : ¬ mentioned norm cbSelf n) : ¬ mentioned norm cb n := by
+  intro hc
+  apply h
+  unfold mentioned at hc ⊢
+  obtain ⟨c, hcm, hcn⟩ := List.mem_map.mp hc
+  exact List.mem_map.mpr ⟨c, hsub c hcm, hcn⟩
+
+variable (fresh : List N → N → N) (hfresh : ∀ ex root, fresh ex root ∉ ex) (norm : N → N)
 
 include hfresh in
-theorem mergeOne_nodup {outer : List N} {st st' : MState N} {o : MSym N}
-    (hnd : (mnames st.self).Nodup) (h : mergeOne fresh outer st o = some st') :
+theorem mergeOne_nodup {outer cbSelf : List N} {st st' : MState N} {o : MSym N}
+    (hnd : (mnames st.self).Nodup) (h : mergeOne fresh norm outer cbSelf st o = some st') :
     (mnames st'.self).Nodup := by
   unfold mergeOne at h
   split at h
@@ -145,43 +177,27 @@ theorem mergeOne_nodup {outer : List N} {st st' : MState N} {o : MSym N}
           subst hx3
           have hsin : s.name ∈ mnames st.self := List.mem_map.mpr ⟨s, hsmem, rfl⟩
           rcases i2 _ hc with h1 | h1
-          · -- the fresh name differs from the clashing name, which is in the table
-            apply hfr.1.1
+          · apply hfr.1.1
             rw [← h1, ← hsn]; exact hsin
           · exact h1.2 hsn.symm
         · cases h
 
-omit [DecidableEq N] in
-theorem meq_of_name_eq {l : List (MSym N)} (hnd : (mnames l).Nodup) {a b : MSym N} (ha : a ∈ l) (hb : b ∈ l)
-    (h : a.name = b.name) : a = b := by
-  induction l with
-  | nil => simp at ha
-  | cons x r ih =>
-    simp only [mnames, List.map_cons, List.nodup_cons] at hnd
-    have hx : ∀ y ∈ r, y.name ≠ x.name := fun y hy hc => hnd.1 (List.mem_map.mpr ⟨y, hy, hc⟩)
-    rcases List.mem_cons.mp ha with ha | ha <;> rcases List.mem_cons.mp hb with hb | hb
-    · rw [ha, hb]
-    · have : b.name = x.name := by rw [← ha]; exact h.symm
-      exact absurd this (hx b hb)
-    · have : a.name = x.name := by rw [← hb]; exact h
-      exact absurd this (hx a ha)
-    · exact ih hnd.2 ha hb
-
 include hfresh in
-theorem mergeOne_prov {outer : List N} {st st' : MState N} {o : MSym N}
-    (hnd : (mnames st.self).Nodup) (h : mergeOne fresh outer st o = some st') :
-    ∀ s' ∈ st'.self, (∃ x ∈ st.self, Prov outer x s') ∨ Prov outer o s' := by
+theorem mergeOne_prov {outer cbSelf : List N} {st st' : MState N} {o : MSym N}
+    (hnd : (mnames st.self).Nodup) (hsub : CbSub cbSelf st.self)
+    (h : mergeOne fresh norm outer cbSelf st o = some st') :
+    ∀ s' ∈ st'.self, (∃ x ∈ st.self, Prov norm outer x s') ∨ Prov norm outer o s' := by
   unfold mergeOne at h
   split at h
   · cases h
     intro s' hs'
     rcases List.mem_append.mp hs' with h1 | h1
-    · left; exact ⟨s', h1, Prov.refl _ _⟩
-    · right; have h1' := List.mem_singleton.mp h1; subst h1'; exact Prov.refl _ _
+    · left; exact ⟨s', h1, Prov.refl _ _ _⟩
+    · right; have h1' := List.mem_singleton.mp h1; subst h1'; exact Prov.refl _ _ _
   · rename_i s hf
     have hsmem : s ∈ st.self := List.mem_of_find?_eq_some hf
     split at h
-    · cases h; intro s' hs'; left; exact ⟨s', hs', Prov.refl _ _⟩
+    · cases h; intro s' hs'; left; exact ⟨s', hs', Prov.refl _ _ _⟩
     · have hfr := hfresh (mnames st.self ++ outer ++ st.otherNames) o.name
       simp only [List.mem_append, not_or] at hfr
       split at h
@@ -189,9 +205,9 @@ theorem mergeOne_prov {outer : List N} {st st' : MState N} {o : MSym N}
         cases h
         intro s' hs'
         rcases List.mem_append.mp hs' with h1 | h1
-        · left; exact ⟨s', h1, Prov.refl _ _⟩
+        · left; exact ⟨s', h1, Prov.refl _ _ _⟩
         · right; have h1' := List.mem_singleton.mp h1; subst h1'
-          exact ⟨rfl, rfl, Or.inr ⟨hk, hfr.1.2⟩⟩
+          exact ⟨rfl, rfl, rfl, Or.inr ⟨hk.1, hk.2, hfr.1.2⟩⟩
       · split at h
         · rename_i hk
           cases h
@@ -200,67 +216,92 @@ theorem mergeOne_prov {outer : List N} {st st' : MState N} {o : MSym N}
           · left
             refine renameNm_prov hfr.1.2 ?_ s' h1
             intro t ht htn
-            rw [meq_of_name_eq hnd ht hsmem htn]; exact hk
-          · right; have h1' := List.mem_singleton.mp h1; subst h1'; exact Prov.refl _ _
+            rw [meq_of_name_eq hnd ht hsmem htn]
+            exact ⟨hk.1, not_mentioned_of_sub (hsub s hsmem) hk.2⟩
+          · right; have h1' := List.mem_singleton.mp h1; subst h1'; exact Prov.refl _ _ _
         · cases h
+
+omit [DecidableEq N] in
+theorem cbSub_of_prov {norm : N → N} {outer cbSelf : List N} {l l' : List (MSym N)} (h : CbSub cbSelf l)
+    (hp : ∀ s' ∈ l', ∃ x ∈ l, x.cb = s'.cb) : CbSub cbSelf l' := by
+  intro s' hs' c hc
+  obtain ⟨x, hx, hxc⟩ := hp s' hs'
+  exact h x hx c (by rw [hxc]; exact hc)
 
 include hfresh in
 /-- one `merge(other)`: distinct names are kept and every entry has a provenance -/
-theorem mergeGo_spec {outer : List N} : ∀ (other : List (MSym N)) (st st' : MState N),
-    (mnames st.self).Nodup → mergeGo fresh outer other st = some st' →
-    (mnames st'.self).Nodup ∧ ∀ s' ∈ st'.self, ∃ x ∈ st.self ++ other, Prov outer x s' := by
+theorem mergeGo_spec {outer cbSelf : List N} : ∀ (other : List (MSym N)) (st st' : MState N),
+    (mnames st.self).Nodup → CbSub cbSelf st.self → CbSub cbSelf other →
+    mergeGo fresh norm outer cbSelf other st = some st' →
+    (mnames st'.self).Nodup ∧ ∀ s' ∈ st'.self, ∃ x ∈ st.self ++ other, Prov norm outer x s' := by
   intro other
   induction other with
   | nil =>
-    intro st st' hnd h
+    intro st st' hnd _ _ h
     simp only [mergeGo] at h; cases h
-    exact ⟨hnd, fun s' hs' => ⟨s', by simp [hs'], Prov.refl _ _⟩⟩
+    exact ⟨hnd, fun s' hs' => ⟨s', by simp [hs'], Prov.refl _ _ _⟩⟩
   | cons o r ih =>
-    intro st st' hnd h
+    intro st st' hnd hs1 hs2 h
     simp only [mergeGo] at h
     split at h
     · cases h
     · rename_i st1 h1
-      have hnd1 := mergeOne_nodup fresh hfresh hnd h1
-      obtain ⟨i1, i2⟩ := ih st1 st' hnd1 h
+      have hnd1 := mergeOne_nodup fresh hfresh norm hnd h1
+      have hp1 := mergeOne_prov fresh hfresh norm hnd hs1 h1
+      have hsub1 : CbSub cbSelf st1.self := by
+        intro s' hs' c hc
+        rcases hp1 s' hs' with ⟨x, hx, hq⟩ | hq
+        · exact hs1 x hx c (by rw [hq.2.2.1]; exact hc)
+        · exact hs2 o (by simp) c (by rw [hq.2.2.1]; exact hc)
+      obtain ⟨i1, i2⟩ := ih st1 st' hnd1 hsub1 (fun s hs => hs2 s (List.mem_cons_of_mem _ hs)) h
       refine ⟨i1, ?_⟩
       intro s' hs'
       obtain ⟨x, hx, hp⟩ := i2 s' hs'
       rcases List.mem_append.mp hx with hx | hx
-      · rcases mergeOne_prov fresh hfresh hnd h1 x hx with ⟨y, hy, hq⟩ | hq
+      · rcases hp1 x hx with ⟨y, hy, hq⟩ | hq
         · exact ⟨y, by simp [hy], hq.trans hp⟩
         · exact ⟨o, by simp, hq.trans hp⟩
       · exact ⟨x, by simp [hx], hp⟩
 
 include hfresh in
-theorem mergeTable_spec {outer : List N} {self other r : List (MSym N)} (hnd : (mnames self).Nodup)
-    (h : mergeTable fresh outer self other = some r) :
-    (mnames r).Nodup ∧ ∀ s' ∈ r, ∃ x ∈ self ++ other, Prov outer x s' := by
+theorem mergeTable_spec {outer cbSelf : List N} {self other r : List (MSym N)} (hnd : (mnames self).Nodup)
+    (hs1 : CbSub cbSelf self) (hs2 : CbSub cbSelf other)
+    (h : mergeTable fresh norm outer cbSelf self other = some r) :
+    (mnames r).Nodup ∧ ∀ s' ∈ r, ∃ x ∈ self ++ other, Prov norm outer x s' := by
   unfold mergeTable at h
-  cases hg : mergeGo fresh outer other { self := self, otherNames := mnames other } with
+  cases hg : mergeGo fresh norm outer cbSelf other { self := self, otherNames := mnames other } with
   | none => simp [hg] at h
   | some st' =>
     simp [hg] at h; subst h
-    exact mergeGo_spec fresh hfresh other _ st' hnd hg
+    exact mergeGo_spec fresh hfresh norm other _ st' hnd hs1 hs2 hg
 
 include hfresh in
-theorem mergeScopes_spec {outer : List N} : ∀ (inner : List (List (MSym N))) (self r : List (MSym N)),
-    (mnames self).Nodup → mergeScopes fresh outer self inner = some r →
-    (mnames r).Nodup ∧ ∀ s' ∈ r, ∃ x ∈ self ++ inner.flatten, Prov outer x s' := by
+theorem mergeScopes_spec {outer cbSelf : List N} : ∀ (inner : List (List (MSym N))) (self r : List (MSym N)),
+    (mnames self).Nodup → CbSub cbSelf self → CbSub cbSelf inner.flatten →
+    mergeScopes fresh norm outer cbSelf self inner = some r →
+    (mnames r).Nodup ∧ ∀ s' ∈ r, ∃ x ∈ self ++ inner.flatten, Prov norm outer x s' := by
   intro inner
   induction inner with
   | nil =>
-    intro self r hnd h
+    intro self r hnd _ _ h
     simp only [mergeScopes] at h; cases h
-    exact ⟨hnd, fun s' hs' => ⟨s', by simp [hs'], Prov.refl _ _⟩⟩
+    exact ⟨hnd, fun s' hs' => ⟨s', by simp [hs'], Prov.refl _ _ _⟩⟩
   | cons t ts ih =>
-    intro self r hnd h
+    intro self r hnd hs1 hs2 h
     simp only [mergeScopes] at h
     split at h
     · cases h
     · rename_i self1 h1
-      obtain ⟨j1, j2⟩ := mergeTable_spec fresh hfresh hnd h1
-      obtain ⟨i1, i2⟩ := ih self1 r j1 h
+      have hst : CbSub cbSelf t := fun s hs => hs2 s (by simp [hs])
+      have hsts : CbSub cbSelf ts.flatten := fun s hs => hs2 s (by simp [hs])
+      obtain ⟨j1, j2⟩ := mergeTable_spec fresh hfresh norm hnd hs1 hst h1
+      have hsub1 : CbSub cbSelf self1 := by
+        intro s' hs' c hc
+        obtain ⟨x, hx, hq⟩ := j2 s' hs'
+        rcases List.mem_append.mp hx with hx | hx
+        · exact hs1 x hx c (by rw [hq.2.2.1]; exact hc)
+        · exact hst x hx c (by rw [hq.2.2.1]; exact hc)
+      obtain ⟨i1, i2⟩ := ih self1 r j1 hsub1 hsts h
       refine ⟨i1, ?_⟩
       intro s' hs'
       obtain ⟨x, hx, hp⟩ := i2 s' hs'
